@@ -170,6 +170,8 @@ def exch_capacity(case, row):
         return sum(a * G.DB[case["db"]]["exch"][nm] for nm, a in d["species"])
     if d["kind"] == "equil":
         return d["X"]
+    if d["kind"] == "equil_multi":
+        return sum(a * (1 if fm == "X" else G.DB[case["db"]]["exch"][fm]) for fm, a in d["lines"])
     return d["per_mole"] * d["z"] * related_moles(case, row, d)
 
 
